@@ -1,12 +1,18 @@
 import WhVerif.Props.C01
+import WhVerif.Lemmas.C02Thm
+import WhVerif.Lemmas.C02Example
 /-!
 # C02 — property theorems (composition over the solver model)
 
-The theorems about zero-cost solutions of error-free instances are being added in Lemmas/C02*.lean; this file
-re-exports them.  For now: the solver stage contract used by the composition.
+`ErrFree I hap src` (Spec/C02.lean) says that the instance handed to the solver consists of error-free copies
+of the two true haplotypes `hap` / `1 - hap` of one heterozygous sample (`src r` = which haplotype read `r`
+copies): this is the contract of the stages before the solver (allele detection C06, read selection C07), and it
+is checked as a seam on every pipeline run of the harness.  Under it:
 -/
 namespace WhVerif.Props.C02
-open WhVerif.C01 WhVerif.Cost
+open WhVerif.C01 WhVerif.C02 WhVerif.Cost
+
+variable {I : Inst} {hap : Nat → Nat} {src : Nat → Bool}
 
 /-- solver stage contract: if SOME bipartition/transmission vector has cost 0, the solver reports cost 0 -/
 theorem solver_reports_zero (I : Inst) (h : WF I) (β : List Bool) (τ : List Nat)
@@ -18,5 +24,56 @@ theorem solver_reports_zero (I : Inst) (h : WF I) (β : List Bool) (τ : List Na
   cases hd : dpCost I with
   | none => rw [hd] at hle; simp [cle] at hle
   | some v => rw [hd] at hle; simp [cle] at hle; rw [hle]
+
+/-- the true bipartition has cost 0 -/
+theorem errfree_truth_cost_zero (h : ErrFree I hap src) :
+    totalCost I ((List.range I.nreads).map src) (List.replicate I.ncols 0) = some 0 :=
+  WhVerif.C02.errfree_truth_cost_zero h
+
+/-- hence the exact solver reports cost 0 on error-free reads -/
+theorem errfree_dpCost_zero (h : ErrFree I hap src) (hwf : WF I) : dpCost I = some 0 :=
+  WhVerif.C02.errfree_dpCost_zero h hwf
+
+/-- a zero-cost bipartition separates two reads sharing a variant iff they copy different haplotypes -/
+theorem zero_cost_separates (h : ErrFree I hap src) {β : List Bool} {τ : List Nat}
+    (hz : totalCost I β τ = some 0) (r1 r2 : Nat) (hl : Linked I r1 r2) :
+    (β.getD r1 false = β.getD r2 false ↔ src r1 = src r2) :=
+  WhVerif.C02.zero_cost_separates h hz r1 r2 hl
+
+/-- on every read-connected component a zero-cost bipartition is the truth or its complement -/
+theorem zero_cost_component (h : ErrFree I hap src) {β : List Bool} {τ : List Nat}
+    (hz : totalCost I β τ = some 0) (r0 : Nat) :
+    (∀ r, Connected I r0 r → β.getD r false = src r) ∨
+    (∀ r, Connected I r0 r → β.getD r false = !src r) :=
+  WhVerif.C02.zero_cost_component h hz r0
+
+/-- no covered column is a tie, and its super-read alleles are the truth up to the swap -/
+theorem zero_cost_no_tie (h : ErrFree I hap src) {β : List Bool} {τ : List Nat}
+    (hz : totalCost I β τ = some 0) (c : Nat) (hc : c < I.ncols) (t : Nat) (r : Nat) (hcov : covers I r c) :
+    getAlleles I c (restrict β (I.activeAt c)) t =
+      some [if β.getD r false = src r then (hap c, 1 - hap c) else (1 - hap c, hap c)] :=
+  WhVerif.C02.zero_cost_no_tie h hz c hc t r hcov
+
+/-- **Composition (solver level).**  Error-free reads, sorted instance, ANY witness `(β, τ)` that achieves the
+reported cost (C01's witness clause): for every read-connected component (represented by a read `r0`), every
+column covered by a read of that component gets exactly the true alleles `(hap c, 1 - hap c)` — or, for the
+whole component at once, the swapped pair.  One swap per component, no tie flags. -/
+theorem pipeline_truth (h : ErrFree I hap src) (hwf : WF I) (β : List Bool) (τ : List Nat)
+    (hw : totalCost I β τ = dpCost I) (r0 r c : Nat) (hconn : Connected I r0 r) (hcov : covers I r c)
+    (hc : c < I.ncols) :
+    getAlleles I c (restrict β (I.activeAt c)) (τ.getD c 0) =
+      some [if β.getD r0 false = src r0 then (hap c, 1 - hap c) else (1 - hap c, hap c)] := by
+  have hz : totalCost I β τ = some 0 := by rw [hw]; exact WhVerif.C02.errfree_dpCost_zero h hwf
+  rw [WhVerif.C02.zero_cost_no_tie h hz c hc (τ.getD c 0) r hcov]
+  have hr := WhVerif.C02.zero_cost_connected h hz hconn
+  have : (β.getD r false = src r) ↔ (β.getD r0 false = src r0) := by
+    rw [hr]
+    cases src r <;> cases src r0 <;> cases β.getD r0 false <;> simp
+  by_cases h0 : β.getD r0 false = src r0
+  · rw [if_pos h0, if_pos (this.mpr h0)]
+  · rw [if_neg h0, if_neg (fun hh => h0 (this.mp hh))]
+
+/-- non-vacuity: the example instance of Lemmas/C02Example.lean is error-free, sorted and connected -/
+example : ErrFree exInst exHap exSrc ∧ WF exInst ∧ Connected exInst 0 2 := ⟨exErrFree, exInst_wf, exConnected⟩
 
 end WhVerif.Props.C02
